@@ -303,6 +303,13 @@ def fullstack(ctx) -> None:
     # train and apply outputs are forks of one appender; stacker/reducer forks one per base
     text = core.src(fn.node)
     ctx.check('apply_output: \'flow.Worker\' = train_output.fork()' in text or 'apply_output = train_output.fork()' in text, 'C12.stack', fn, 'train and apply outputs are forks of one appender', fn.node, key='stack:appender-fork')
+    # the default apply-mode reducer itself: a symmetric n-ary aggregate over *all* fold predictions of one column
+    pm = prog.func(f'{STACK}:pandas_mean')
+    means = [c for c in ast.walk(pm.node) if isinstance(c, ast.Call) and core.call_tail(c) == 'mean' and any(k.arg == 'axis' and isinstance(k.value, ast.Constant) and k.value.value in ('columns', 1) for k in c.keywords)]
+    lendiv = [b for b in ast.walk(pm.node) if isinstance(b, ast.BinOp) and isinstance(b.op, ast.Div) and isinstance(b.right, ast.Call) and core.call_tail(b.right) == 'len']
+    constdiv = [b for b in ast.walk(pm.node) if isinstance(b, ast.BinOp) and isinstance(b.op, (ast.Div, ast.Mult)) and any(isinstance(x, ast.Constant) and isinstance(x.value, (int, float)) and not isinstance(x.value, bool) and x.value not in (0, 1) for x in (b.left, b.right))]
+    pairwise = [c for c in ast.walk(pm.node) if isinstance(c, ast.Call) and core.call_tail(c) in ('reduce', 'accumulate')]
+    ctx.check(bool(means or lendiv) and not (constdiv and pairwise), 'C12.stack', pm, 'the default reducer is the mean over all fold models (an n-ary aggregate: .mean(axis=columns) or sum/len; a pairwise fold with a constant weight is not)', (constdiv or pairwise or [pm.node])[0], key='stack:pandas-mean')
     ctx.check("flowmod.Worker(kwargs['stacker'], nsplits, 1)" in text and "flowmod.Worker.fgen(kwargs['stacker'], nsplits, 1)" in text and "flowmod.Worker.fgen(kwargs['reducer'], nsplits, 1)" in text and 'nsplits = len(folds)' in text, 'C12.stack', fn, 'stackers/reducers have one input per fold', fn.node, key='stack:width')
     ret = next((r for r in core.walk_local(fn.node) if isinstance(r, ast.Return)), None)
     ctx.check(ret is not None and core.src(ret.value) == '(train_output, apply_output, label_output)', 'C12.stack', fn, 'build returns (train, apply, label) tails', ret or fn.node, key='stack:return')
